@@ -31,6 +31,10 @@ fn lattice(_tier: Tier, channels: &[usize]) -> Vec<Cfg> {
         v.push(Cfg::fft(Kind::XI, 3, 2, 12, 2).with_channels(n));
         v.push(Cfg::fft(Kind::XO, 2, 3, 12, 2).with_channels(n));
         v.push(Cfg::fft(Kind::XX, 3, 2, 12, 1).with_channels(n));
+        // configurations that carry saved frames from call to call (chunk not a multiple of the block)
+        v.push(Cfg::fft(Kind::XI, 3, 2, 10, 2).with_channels(n));
+        v.push(Cfg::fft(Kind::XI, 147, 160, 100, 1).with_channels(n));
+        v.push(Cfg::fft(Kind::XO, 2, 3, 10, 2).with_channels(n));
         if !q {
             v.push(Cfg::fft(Kind::XI, 2, 3, 10, 1).with_channels(n));
             v.push(Cfg::fft(Kind::XO, 3, 2, 7, 1).with_channels(n));
